@@ -135,6 +135,11 @@ pub fn deviations(b: &[u8]) -> Vec<Dev> {
         let name_len = u16::from_le_bytes([b[o + 64], b[o + 65]]) as usize;
         if t == 5 {
             push("wrongRootName", i, &|img| { img[o] = b'r'; });
+            // a wrong root name that would not be a legal object name (reserved characters; empty): the name of the
+            // root is replaced, not validated
+            push("wrongRootName", i + 100000, &|img| { img[o + 8] = b'/'; });
+            push("wrongRootName", i + 200000, &|img| { img[o] = b'!'; img[o + 2] = b':'; img[o + 4] = b'\\'; });
+            push("wrongRootName", i + 300000, &|img| { img[o + 64] = 2; img[o + 65] = 0; img[o] = 0; img[o + 1] = 0; });
         } else if name_len >= 2 && name_len < 64 {
             // the unit right after the name must be a terminator
             push("unterminatedName", i, &|img| { img[o + name_len - 2] = b'x'; });
